@@ -52,49 +52,92 @@ func qosData(pdu uint8, qfi []uint8, isDefault, isDSCP bool, dscp uint8) []byte 
 
 func u8s(n, seed int) []uint8 { return univ.Pat(n, seed) }
 
+// The caller's argument buffers: every octet string (and SPI list) handed to a builder lives in a buffer of the
+// caller with spare capacity behind it, and the caller overwrites the whole buffer as soon as the builder has
+// returned (one scratch buffer refilled for the next payload). What was built must not change with it.
+var c19HeldB [][]byte
+var c19HeldU [][]uint32
+
+func ca(b []byte) []byte {
+	if b == nil {
+		return nil
+	}
+	x := make([]byte, len(b), len(b)+8)
+	copy(x, b)
+	c19HeldB = append(c19HeldB, x)
+	return x
+}
+
+func cu(s []uint32) []uint32 {
+	x := make([]uint32, len(s), len(s)+2)
+	copy(x, s)
+	c19HeldU = append(c19HeldU, x)
+	return x
+}
+
+func c19ScribbleArgs() {
+	for _, x := range c19HeldB {
+		x = x[:cap(x)]
+		for i := range x {
+			x[i] ^= 0xff
+		}
+	}
+	for _, x := range c19HeldU {
+		x = x[:cap(x)]
+		for i := range x {
+			x[i] ^= 0xffffffff
+		}
+	}
+	c19HeldB, c19HeldU = nil, nil
+}
+
 // c19Ops is the builder alphabet used for sequences (every Build* function, representative arguments).
 func c19Ops() []c19Op {
 	var ops []c19Op
 	add := func(name string, f func(c *message.IKEPayloadContainer) error, exp ...ref.Payload) {
-		ops = append(ops, c19Op{name: name, apply: f, expect: exp})
+		ops = append(ops, c19Op{name: name, apply: func(c *message.IKEPayloadContainer) error {
+			err := f(c)
+			c19ScribbleArgs()
+			return err
+		}, expect: exp})
 	}
 	ok := func(f func(c *message.IKEPayloadContainer)) func(c *message.IKEPayloadContainer) error {
 		return func(c *message.IKEPayloadContainer) error { f(c); return nil }
 	}
-	add("BuildNotification(spi4,data)", ok(func(c *message.IKEPayloadContainer) { c.BuildNotification(3, 16393, univ.Pat(4, 1), univ.Pat(9, 2)) }),
+	add("BuildNotification(spi4,data)", ok(func(c *message.IKEPayloadContainer) { c.BuildNotification(3, 16393, ca(univ.Pat(4, 1)), ca(univ.Pat(9, 2))) }),
 		ref.Payload{T: ref.PNotify, B: 3, NType: 16393, SPI: univ.Pat(4, 1), Data: univ.Pat(9, 2)})
 	add("BuildNotification(nil,nil)", ok(func(c *message.IKEPayloadContainer) { c.BuildNotification(0, 1, nil, nil) }), ref.Payload{T: ref.PNotify, B: 0, NType: 1})
-	add("BuildCertificate", ok(func(c *message.IKEPayloadContainer) { c.BuildCertificate(4, univ.Pat(33, 3)) }), ref.Payload{T: ref.PCERT, B: 4, Data: univ.Pat(33, 3)})
-	add("BuildEncrypted", ok(func(c *message.IKEPayloadContainer) { c.BuildEncrypted(message.TypeIDi, univ.Pat(48, 4)) }), ref.Payload{T: ref.PSK, B: ref.PIDi, Data: univ.Pat(48, 4)})
-	add("BUildKeyExchange", ok(func(c *message.IKEPayloadContainer) { c.BUildKeyExchange(14, univ.Pat(256, 5)) }), ref.Payload{T: ref.PKE, Group: 14, Data: univ.Pat(256, 5)})
-	add("BuildIdentificationInitiator", ok(func(c *message.IKEPayloadContainer) { c.BuildIdentificationInitiator(2, []byte("ue@nai")) }), ref.Payload{T: ref.PIDi, B: 2, Data: []byte("ue@nai")})
-	add("BuildIdentificationResponder", ok(func(c *message.IKEPayloadContainer) { c.BuildIdentificationResponder(1, []byte{10, 0, 0, 1}) }), ref.Payload{T: ref.PIDr, B: 1, Data: []byte{10, 0, 0, 1}})
-	add("BuildAuthentication", ok(func(c *message.IKEPayloadContainer) { c.BuildAuthentication(2, univ.Pat(20, 6)) }), ref.Payload{T: ref.PAUTH, B: 2, Data: univ.Pat(20, 6)})
+	add("BuildCertificate", ok(func(c *message.IKEPayloadContainer) { c.BuildCertificate(4, ca(univ.Pat(33, 3))) }), ref.Payload{T: ref.PCERT, B: 4, Data: univ.Pat(33, 3)})
+	add("BuildEncrypted", ok(func(c *message.IKEPayloadContainer) { c.BuildEncrypted(message.TypeIDi, ca(univ.Pat(48, 4))) }), ref.Payload{T: ref.PSK, B: ref.PIDi, Data: univ.Pat(48, 4)})
+	add("BUildKeyExchange", ok(func(c *message.IKEPayloadContainer) { c.BUildKeyExchange(14, ca(univ.Pat(256, 5))) }), ref.Payload{T: ref.PKE, Group: 14, Data: univ.Pat(256, 5)})
+	add("BuildIdentificationInitiator", ok(func(c *message.IKEPayloadContainer) { c.BuildIdentificationInitiator(2, ca([]byte("ue@nai"))) }), ref.Payload{T: ref.PIDi, B: 2, Data: []byte("ue@nai")})
+	add("BuildIdentificationResponder", ok(func(c *message.IKEPayloadContainer) { c.BuildIdentificationResponder(1, ca([]byte{10, 0, 0, 1})) }), ref.Payload{T: ref.PIDr, B: 1, Data: []byte{10, 0, 0, 1}})
+	add("BuildAuthentication", ok(func(c *message.IKEPayloadContainer) { c.BuildAuthentication(2, ca(univ.Pat(20, 6))) }), ref.Payload{T: ref.PAUTH, B: 2, Data: univ.Pat(20, 6)})
 	add("BuildConfiguration+2attr", ok(func(c *message.IKEPayloadContainer) {
 		cp := c.BuildConfiguration(1)
 		cp.ConfigurationAttribute.BuildConfigurationAttribute(1, nil)
-		cp.ConfigurationAttribute.BuildConfigurationAttribute(0x7fff, univ.Pat(16, 7))
+		cp.ConfigurationAttribute.BuildConfigurationAttribute(0x7fff, ca(univ.Pat(16, 7)))
 	}), ref.Payload{T: ref.PCP, B: 1, CP: []ref.CPAttr{{Type: 1}, {Type: 0x7fff, Val: univ.Pat(16, 7)}}})
-	add("BuildNonce(32)", ok(func(c *message.IKEPayloadContainer) { c.BuildNonce(univ.Pat(32, 8)) }), ref.Payload{T: ref.PNonce, Data: univ.Pat(32, 8)})
+	add("BuildNonce(32)", ok(func(c *message.IKEPayloadContainer) { c.BuildNonce(ca(univ.Pat(32, 8))) }), ref.Payload{T: ref.PNonce, Data: univ.Pat(32, 8)})
 	add("BuildNonce(nil)", ok(func(c *message.IKEPayloadContainer) { c.BuildNonce(nil) }), ref.Payload{T: ref.PNonce})
 	add("BuildTrafficSelectorInitiator+v4v6", ok(func(c *message.IKEPayloadContainer) {
 		ts := c.BuildTrafficSelectorInitiator()
-		ts.TrafficSelectors.BuildIndividualTrafficSelector(7, 6, 80, 443, []byte{10, 0, 0, 1}, []byte{10, 0, 0, 9})
-		ts.TrafficSelectors.BuildIndividualTrafficSelector(8, 17, 1, 65535, univ.Pat(16, 9), univ.Pat(16, 10))
+		ts.TrafficSelectors.BuildIndividualTrafficSelector(7, 6, 80, 443, ca([]byte{10, 0, 0, 1}), ca([]byte{10, 0, 0, 9}))
+		ts.TrafficSelectors.BuildIndividualTrafficSelector(8, 17, 1, 65535, ca(univ.Pat(16, 9)), ca(univ.Pat(16, 10)))
 	}), ref.Payload{T: ref.PTSi, TS: []ref.Selector{{Type: 7, Proto: 6, SPort: 80, EPort: 443, SAddr: []byte{10, 0, 0, 1}, EAddr: []byte{10, 0, 0, 9}},
 		{Type: 8, Proto: 17, SPort: 1, EPort: 65535, SAddr: univ.Pat(16, 9), EAddr: univ.Pat(16, 10)}}})
 	add("BuildTrafficSelectorResponder+v4", ok(func(c *message.IKEPayloadContainer) {
 		ts := c.BuildTrafficSelectorResponder()
-		ts.TrafficSelectors.BuildIndividualTrafficSelector(7, 0, 0, 65535, []byte{0, 0, 0, 0}, []byte{255, 255, 255, 255})
+		ts.TrafficSelectors.BuildIndividualTrafficSelector(7, 0, 0, 65535, ca([]byte{0, 0, 0, 0}), ca([]byte{255, 255, 255, 255}))
 	}), ref.Payload{T: ref.PTSr, TS: []ref.Selector{{Type: 7, SPort: 0, EPort: 65535, SAddr: []byte{0, 0, 0, 0}, EAddr: []byte{255, 255, 255, 255}}}})
 	add("BuildSecurityAssociation+proposal+transforms", ok(func(c *message.IKEPayloadContainer) {
 		sa := c.BuildSecurityAssociation()
-		p := sa.Proposals.BuildProposal(1, 3, univ.Pat(4, 11))
+		p := sa.Proposals.BuildProposal(1, 3, ca(univ.Pat(4, 11)))
 		at, av := uint16(14), uint16(256)
 		p.EncryptionAlgorithm.BuildTransform(1, 12, &at, &av, nil)
 		p.IntegrityAlgorithm.BuildTransform(3, 12, nil, nil, nil)
 		at2 := uint16(300)
-		p.IntegrityAlgorithm.BuildTransform(3, 2, &at2, nil, univ.Pat(5, 12))
+		p.IntegrityAlgorithm.BuildTransform(3, 2, &at2, nil, ca(univ.Pat(5, 12)))
 		p.ExtendedSequenceNumbers.BuildTransform(5, 0, nil, nil, nil)
 		q := sa.Proposals.BuildProposal(2, 1, nil)
 		q.PseudorandomFunction.BuildTransform(2, 5, nil, nil, nil)
@@ -103,7 +146,7 @@ func c19Ops() []c19Op {
 		{Num: 1, Proto: 3, SPI: univ.Pat(4, 11), Tr: []ref.Transform{{Type: 1, ID: 12, HasAttr: true, TV: true, AType: 14, AValue: 256}, {Type: 3, ID: 12},
 			{Type: 3, ID: 2, HasAttr: true, AType: 300, AVar: univ.Pat(5, 12)}, {Type: 5, ID: 0}}},
 		{Num: 2, Proto: 1, Tr: []ref.Transform{{Type: 2, ID: 5}, {Type: 4, ID: 14}}}}})
-	add("BuildDeletePayload(esp,2)", ok(func(c *message.IKEPayloadContainer) { c.BuildDeletePayload(3, 4, 2, []uint32{0x01020304, 0xfffffffe}) }),
+	add("BuildDeletePayload(esp,2)", ok(func(c *message.IKEPayloadContainer) { c.BuildDeletePayload(3, 4, 2, cu([]uint32{0x01020304, 0xfffffffe})) }),
 		ref.Payload{T: ref.PDelete, B: 3, SSize: 4, NSPI: 2, SPIs: []uint32{0x01020304, 0xfffffffe}})
 	add("BuildDeletePayload(ike)", ok(func(c *message.IKEPayloadContainer) { c.BuildDeletePayload(1, 0, 0, nil) }), ref.Payload{T: ref.PDelete, B: 1})
 	add("BuildEAP+Identity", ok(func(c *message.IKEPayloadContainer) {
@@ -112,16 +155,16 @@ func c19Ops() []c19Op {
 	}), ref.Payload{T: ref.PEAP, EAP: &ref.EAP{Code: 2, ID: 7, Method: 1, Data: []byte("anonymous")}})
 	add("BuildEAP+Expanded", ok(func(c *message.IKEPayloadContainer) {
 		e := c.BuildEAP(eap.EapCodeRequest, 8)
-		e.EapTypeData = message.BuildEapExpanded(0xabcdef, 0x01020304, univ.Pat(6, 13))
+		e.EapTypeData = message.BuildEapExpanded(0xabcdef, 0x01020304, ca(univ.Pat(6, 13)))
 	}), ref.Payload{T: ref.PEAP, EAP: &ref.EAP{Code: 1, ID: 8, Method: 254, VID: 0xabcdef, VType: 0x01020304, Data: univ.Pat(6, 13)}})
 	add("BuildEAPSuccess", ok(func(c *message.IKEPayloadContainer) { c.BuildEAPSuccess(200) }), ref.Payload{T: ref.PEAP, EAP: &ref.EAP{Code: 3, ID: 200}})
 	add("BuildEAPfailure", ok(func(c *message.IKEPayloadContainer) { c.BuildEAPfailure(0) }), ref.Payload{T: ref.PEAP, EAP: &ref.EAP{Code: 4, ID: 0}})
 	add("BuildEAP5GStart", ok(func(c *message.IKEPayloadContainer) { c.BuildEAP5GStart(33) }),
 		ref.Payload{T: ref.PEAP, EAP: &ref.EAP{Code: 1, ID: 33, Method: 254, VID: 10415, VType: 3, Data: []byte{1, 0}}})
-	add("BuildEAP5GNAS(40)", func(c *message.IKEPayloadContainer) error { return c.BuildEAP5GNAS(34, univ.Pat(40, 14)) },
+	add("BuildEAP5GNAS(40)", func(c *message.IKEPayloadContainer) error { return c.BuildEAP5GNAS(34, ca(univ.Pat(40, 14))) },
 		ref.Payload{T: ref.PEAP, EAP: &ref.EAP{Code: 1, ID: 34, Method: 254, VID: 10415, VType: 3, Data: append([]byte{2, 0, 0, 40}, univ.Pat(40, 14)...)}})
 	add("BuildNotify5G_QOS_INFO(3qfi,default,dscp)", func(c *message.IKEPayloadContainer) error {
-		return c.BuildNotify5G_QOS_INFO(5, []uint8{1, 2, 9}, true, true, 46)
+		return c.BuildNotify5G_QOS_INFO(5, ca([]uint8{1, 2, 9}), true, true, 46)
 	},
 		notify3gpp(55501, qosData(5, []uint8{1, 2, 9}, true, true, 46)))
 	add("BuildNotify5G_QOS_INFO(none)", func(c *message.IKEPayloadContainer) error {
@@ -139,7 +182,7 @@ func init() {
 		ID:    "C19",
 		Level: "model_checking",
 		Rule: "explicit-state search over IKEPayloadContainer (and the nested proposal / transform / selector / attribute containers): ops = every Build* function with representative arguments, applied from every prior container content of depth <= 2 (quick) / 4 (thorough); a reference list model is advanced in parallel. After every op: the container projects to model ++ [expected payload], every earlier payload has an unchanged dump, and the encoding of the container is accepted by the strict reference parser and parses to the model (3GPP layouts included). " +
-			"Argument sweeps from the empty container: NAS PDUs 1..64 ∪ {65520..65536, 70000}, QFI lists 0..300 × flags × DSCP, PDU session id 0..255, dotted quads, ports, octet strings around the 16-bit limit, all 256 exchange types × 4 flag combinations × SPI/message-id patterns for NewHeader/NewMessage. Oversize arguments: an error (at build or at encode), never a truncated length field. distinct_nontrivial = distinct container encodings verified against the model",
+			"Arguments are handed over in caller buffers that are overwritten (spare capacity included) as soon as the builder has returned. For every ordered pair of builders (a, b): b builds into one container, a into another whose holder then overwrites everything reachable from it, b builds again — both results of b equal its arguments. Argument sweeps from the empty container: NAS PDUs 1..64 ∪ {65520..65536, 70000}, QFI lists 0..300 × flags × DSCP, PDU session id 0..255, dotted quads, ports, octet strings around the 16-bit limit, all 256 exchange types × 4 flag combinations × SPI/message-id patterns for NewHeader/NewMessage. Oversize arguments: an error (at build or at encode), never a truncated length field. distinct_nontrivial = distinct container encodings verified against the model",
 		Assumptions: []string{"TS 24.502 layouts are taken as listed in the property statement (5G_QOS_INFO length octet counts the whole value including itself; DSCPI = bit 1, DCSI = bit 2)"},
 		Run:         runC19,
 		Replay: func(c *engine.Ctx, raw json.RawMessage) {
@@ -148,6 +191,8 @@ func init() {
 			switch cs.K {
 			case "seq":
 				c19Seq(c, cs.Hist, cs.Op)
+			case "edited":
+				c19Edited(c, cs.Hist[0], cs.Op)
 			case "nested":
 				c19Nested(c, cs.Op, cs.Args)
 			case "sweep":
@@ -185,6 +230,11 @@ func runC19(c *engine.Ctx) {
 	if c.Mine() {
 		for oi := range ops {
 			c19Seq(c, nil, oi)
+		}
+		for a := range ops {
+			for b := range ops {
+				c19Edited(c, a, b)
+			}
 		}
 	}
 	// nested containers: every sequence (with repetitions) of sub-element builders up to depth 3
@@ -246,6 +296,45 @@ func runC19(c *engine.Ctx) {
 				c19Header(c, []int{ex, fl, sp})
 			}
 		}
+	}
+}
+
+// c19Edited: what a builder appended belongs to the container it was appended to. The holder of one container edits
+// everything reachable from it (EAP-5G Start turned into Stop by patching its vendor data, an address rewritten in
+// place); a payload built earlier into another container stays what it was, and the same builder called afterwards
+// yields its arguments again.
+func c19Edited(c *engine.Ctx, a, b int) {
+	c.Evals++
+	c.Transitions++
+	ops := c19Ops()
+	cs := c19Case{K: "edited", Hist: []int{a}, Op: b}
+	var before, edited, after message.IKEPayloadContainer
+	var err error
+	if pi := engine.Catch(func() {
+		if err = ops[b].apply(&before); err != nil {
+			return
+		}
+		if err = ops[a].apply(&edited); err != nil {
+			return
+		}
+		engine.Scribble(&edited)
+		err = ops[b].apply(&after)
+	}); pi != nil {
+		c.Violate(pi.Sig(), "builder panics: "+pi.Value, cs)
+		return
+	}
+	if err != nil {
+		c.Violate("builder-error/"+ops[b].name, errStr(err), cs)
+		return
+	}
+	want := ref.CanonPayloads(ops[b].expect)
+	if got := ref.CanonPayloads(univ.ProjectPayloads(before)); got != want {
+		c.Violate("built-payload-changes-when-another-is-edited/"+ops[b].name, fmt.Sprintf("%s was built, then the result of %s (another container) was overwritten by its holder: the first container now holds %s, arguments say %s", ops[b].name, ops[a].name, trs(got), trs(want)), cs)
+		return
+	}
+	if got := ref.CanonPayloads(univ.ProjectPayloads(after)); got != want {
+		c.Violate("fields-after-another-result-was-edited/"+ops[b].name, fmt.Sprintf("the result of %s was overwritten by its holder, then %s: container %s, arguments say %s", ops[a].name, ops[b].name, trs(got), trs(want)), cs)
+		return
 	}
 }
 
